@@ -163,15 +163,20 @@ CLAIMED["C20"] = dict(
 )
 
 CLAIMED["C06"] = dict(
-    text="PARTIAL. Lean theorems (Props/C06.lean): for every matcher every returned line and every unmatched line is one of the records "
-         "the reader produced, unchanged, at increasing positions; the headers are the cleaned cells of the first non-blank record and "
-         "contain none of the delimiter-like characters; #name and #index read the same cell, the index being the first position of the "
-         "name; a header beyond a short row (or unknown) reads as absent. Tie: suite `reader` writes generated records (unicode, quotes, "
-         "delimiters, newlines, blanks, ragged) with csv.writer in 8 dialects and requires the real collect() to return them, checks "
-         "headers, #name/#index and short rows through real csvpaths, and compares headers and header values with the model.",
-    note="Python's csv module and file decoding are a parameter of the model: dialect fidelity of the reader is tested, not proved. "
+    text="Lean theorems (Props/C06.lean): on the model of Python's csv module (reader state machine of _csv.c over a text-mode file, "
+         "QUOTE_MINIMAL writer) reading what csv.writer wrote returns exactly the records written — same count, cells, order — for every "
+         "delimiter and quote character, every cell text without a carriage return (quoted delimiters, doubled quotes, embedded line "
+         "feeds, empty cells, blank and ragged records), unbounded sizes (c06_csv_roundtrip); for every matcher every returned line and "
+         "every unmatched line is one of the records the reader produced, unchanged, at increasing positions (c06_identity, c06_delivered); "
+         "the headers are the cleaned cells of the first non-blank record and contain none of the delimiter-like characters; #name and "
+         "#index read the same cell, the index being the first position of the name; a header beyond a short row (or unknown) reads as "
+         "absent. Tie: suite `reader` writes generated records with csv.writer in 8 dialects, compares the model's text with the file and "
+         "the model's reader with the repo's DataFileReader (also on 1,500+ arbitrary texts with stray quotes, CR, CRLF, open quotes and "
+         "small field limits: records or csv.Error), requires the real collect() to return the records, and checks headers (stand-alone "
+         "and through CsvPaths with a cold and a warm header cache), #name/#index and short rows through real csvpaths.",
+    note="UTF-8 decoding and the OS file layer are below the model. str.strip is a parameter of the header model. "
          "Header names in the #name clause are simple generated names (the csvpath grammar restricts how a header can be written).",
-    technique="Lean 4 proof (run-loop lemmas, header model) + dialect round-trip correspondence",
+    technique="Lean 4 proof (csv writer/reader round trip by induction over records, cells and characters; run-loop lemmas; header model) + correspondence",
     design="6/C06",
 )
 
@@ -183,7 +188,7 @@ CLAIMED["C19"] = dict(
          "in a fresh subprocess — in sequence, repeated, and through CsvPaths.csvpath() with a cold and a warm cache, with header cells "
          "containing spaces, quotes and delimiter-like characters.",
     note="Process-global Python state (module registries, warnings filters, logging handlers) has no counterpart in a pure model; "
-         "history-independence of the implementation is tested, not proved. The csv module's own round trip for quoted cells is assumed.",
+         "history-independence of the implementation is tested, not proved. The csv module's round trip is C06's theorem c06_csv_roundtrip.",
     technique="Lean 4 proof (comma split/join round trip) + fresh-process differential testing",
     design="6/C19",
 )
